@@ -928,7 +928,6 @@ func init() {
 	addKind(&kind{name: "VecRow", shape: stCol, build: buildVec("vecRow")})
 	bvec := addKind(&kind{name: "basicVec", shape: stCol, build: buildBasicVec})
 	addKind(&kind{name: "rawVec", shape: stCol, build: buildVec("rawVec")})
-	addKind(&kind{name: "VecRawLong", shape: stCol, build: buildVec("vecRawLong")})
 	core(addKind(wrapped("T(Vec)", vec, wT)))
 	addKind(wrapped("T(VecInc)", vecInc, wT))
 	addKind(wrapped("TVec(Vec)", vec, wTVec))
